@@ -357,7 +357,12 @@ ShapeOK(f, a, r) ==
             \* words and separators only (punctuation makes xstrings keep the separator that follows it)
             /\ (f = "snakecase" /\ \A i \in DOMAIN in : IsWordRune(in[i])) => \A i \in DOMAIN out : out[i] \notin {" ", "-"}
             /\ (f = "kebabcase" /\ \A i \in DOMAIN in : IsWordRune(in[i])) => \A i \in DOMAIN out : out[i] \notin {" ", "_"}
-            /\ (f = "camelcase" /\ TwoLowerWords(in)) => \A i \in DOMAIN out : ~IsSep(out[i]) )
+            /\ (f = "camelcase" /\ TwoLowerWords(in)) => \A i \in DOMAIN out : ~IsSep(out[i])
+            \* converting twice is converting once (the log carries f(f(x)) as r.again); strings made of
+            \* separators only are left out: xstrings' camelcase grows them by one separator per call
+            \* and camelcase altogether: it keeps one of two adjacent separators, so a second pass differs)
+            /\ ("again" \in DOMAIN r /\ f # "camelcase" /\ \E i \in DOMAIN in : IsLetterRune(in[i]) \/ in[i] \in Digits)
+                  => r.again = out )
 
 \* does a reply (typed value, or Err) recorded from the real code satisfy the contract?
 Accepts(f, a, r) ==
